@@ -135,6 +135,14 @@ def check_arc(run, S, name, spec, kw):
         val = cv.val(leaf['v'])
         qv, qs = val[0], val[1]
         eqs = approx_eq_guards(S, cv, guards)
+        # "treated as exactly (anti)parallel" is allowed only within the scalar type's own default tolerance (that is where the
+        # 1e-7 rad / 1e-4 rad of the statement come from for f64): an approximate test with any other tolerance operand widens it
+        loose = []
+        for g_, t in eqs:
+            for p_ in (g_['parts'] if g_['kind'] == 'conj' else [g_]):
+                if p_['kind'] in ('ulps', 'abs_diff', 'relative') and not p_.get('default_tols'):
+                    loose.append(p_['text'][:100])
+        run.ob(key + ':tolerance', not loose, rule='K5 guard operands', expected='approximate direction tests use the default epsilon / max_ulps of the scalar type', found=loose[:2] or 'defaults', where=where)
         same = [t for g_, t in eqs if g_['kind'] != 'conj' and same_dir_test(g_)]
         opp = [t for g_, t in eqs if g_['kind'] != 'conj' and opp_dir_test(g_)]
         is_same = bool(same) and same[-1]
@@ -269,8 +277,9 @@ def run(tier):
     specs.selfcheck()
     PAIR.clear()
     h = build()
+    mono_ = h.monomorphise(['f32', 'f64'], bound='<S: BaseFloat>', kinds=None, method_syntax=True, soft=True)   # concrete scalar types, both spellings: what a user of f32 / f64 really gets
     S, inv, meta = facts.extract(PROP, h.src())
-    report_dropped(run, meta)
+    report_dropped(run, meta, h)
     run_specs(run, S, h, custom={'arc': check_arc, 'deleg': check_deleg, 'b2': check_b2})
     run.floor('roots', len(run.roots), len(h.specs))
     run.assumed.update(A.CTX.assumed)
